@@ -133,8 +133,8 @@ def run_programs(ctx, progs, name, extra_args=None, chunk=2500, procs=8):
             raise err
         for rec in read_ndjson(outp):
             if rec.get("summary"):
-                for k in ("behaviours", "runs", "bad", "metered_runs", "budget_runs"):
-                    total[k] += rec.get(k, 0)
+                for k in ("behaviours", "runs", "bad", "metered_runs", "budget_runs", "artifact_runs", "interrupt_runs"):
+                    total[k] = total.get(k, 0) + rec.get(k, 0)
                 total["max_ratio"] = max(total["max_ratio"], rec.get("max_steps_per_energy_and_instruction", 0.0))
                 for k, v in rec["by_action"].items():
                     total["by_action"][k] = total["by_action"].get(k, 0) + v
@@ -182,6 +182,8 @@ def run(ctx):
     prop = ctx.prop
     if prop == "C09":
         return run_c09(ctx)
+    if prop == "C13":
+        return run_c13(ctx)
     w = 8 if quick else 16
     ctx.assumptions += [
         "TLC 1.8 and the CommunityModules are trusted; the Wasm assembler checks/wasmasm.py (~230 lines) and the harness are trusted",
@@ -342,3 +344,45 @@ def run_c09(ctx):
                 "WasmValidate state machine rejects (then closed syntactically) or left unclosed; limit vectors: a valid baseline skeleton with one or two parameters moved to "
                 "limit-1/limit/limit+1 or to a forbidden construct; mutants: TLC-simulated byte-level mutation scripts applied to valid modules. Verdicts are compared under both "
                 "ValidationConfigs and with metering; accepted modules are compiled and executed with the H2 bounds assertions on. distinct = distinct module binaries")
+
+
+def run_c13(ctx):
+    """Stored artifacts and interrupted executions behave identically when resumed."""
+    quick = ctx.tier == "quick"
+    w = 8 if quick else 16
+    ctx.assumptions += [
+        "interrupts are exercised at the wasm-transform level (Host::call returning an interrupt, RunConfig::push_value, run_config); the chain-level resume_receive path is C14's",
+        "the trusted-input artifact parser is only fed artifacts produced by the engine itself",
+    ]
+    from concurrent.futures import ThreadPoolExecutor
+    jobs = [dict(cfg="host", maxlen=5 if quick else 6, workers=6, host=True, invariants=("InterruptTransparent",)),
+            dict(cfg="ctl", maxlen=5 if quick else 6, workers=4),
+            dict(cfg="mem", maxlen=4, workers=4),
+            dict(cfg="call", maxlen=4, workers=4),
+            dict(cfg="struct", maxlen=0, name="structured", spec="FSpec", workers=4)]
+    with ThreadPoolExecutor(max_workers=3) as ex:
+        results = list(ex.map(lambda kw: gen_programs(ctx, **kw), jobs))
+    hostp = results[0]
+    progs = [p for r in results for p in r]
+    ctx.exhaustive = True
+    sim = gen_programs(ctx, "host", 12 if quick else 20, name="sim_host", simulate=(2000 if quick else 100000), depth=26, host=True)
+    progs += sim
+    add_code_len(progs)
+    if len(hostp) < 500:
+        raise ToolError("too few programs with host calls: %d" % len(hostp))
+    tot = run_programs(ctx, progs, "programs", extra_args=["--nobudget", "--artifact", "--interrupts"])
+    ctx.extra["engine_runs"] = tot["runs"]
+    ctx.extra["outcome_histogram"] = tot["by_action"]
+    ctx.extra["known_finding_hits"] = tot["known_finding_hits"]
+    ctx.evaluations += tot["runs"]
+    ctx.extra["artifact_runs"] = tot.get("artifact_runs", 0)
+    ctx.extra["interrupt_runs"] = tot.get("interrupt_runs", 0)
+    if tot["by_action"].get("done:done", 0) < 1000 or tot.get("artifact_runs", 0) < 1000 or tot.get("interrupt_runs", 0) < 500:
+        raise ToolError("vacuous run: %s" % tot["by_action"])
+    for p in hostp[:1] + sim[:1]:
+        ctx.sample({"kind": "program with host calls: inline vs every interrupt schedule vs stored artifact (borrowed, owned)", "body": show_body(p["body"]),
+                    "hostq": p.get("hostq"), "runs": [{"args": r["args"], "expected": {k: r["out"].get(k) for k in ("status", "res", "hostlog")}} for r in p["runs"][:1]]})
+    ctx.rule = ("programs from the host-call alphabet (template with an imported host function; scripted results) and from the control, memory, call and structured families; every program is "
+                "run fresh, from its serialised artifact loaded zero-copy, and from the owned conversion (re-serialisation must be byte-identical); programs that call the host are "
+                "additionally run with every subset of their host-call sites (up to 4, sampled beyond) interrupting and resumed with the scripted value. All observations (result, trap, "
+                "memory, tick sequence, account_memory, host calls) must equal the uninterrupted fresh run and the reference. distinct = distinct module binaries")
